@@ -28,3 +28,4 @@ def build(run, with_vertex=True):
         run.py_contract(PD.PF_, "TotalDos._get_density_of_states_at_freq", lambda: PD.total_dos_at_freq(run), PD.replay_smearing)
         PD.kernel_lemmas(run)
         run.py_contract(PD.PF_, "ProjectedDos._run_smearing_method", lambda: PD.projected_dos_smearing(run), PD.replay_smearing)
+    run.axioms += ["A-UNIF: numpy vectorised operations / reductions are uniform in the array length: the contracts of vectorised Python glue are proved on a generic small instance with distinct symbolic elements (2 q-points x 2 bands x 2 projections) and taken to hold for every length"]
